@@ -6,6 +6,7 @@ import (
 	"io"
 	"os"
 
+	"github.com/klauspost/compress/zstd"
 	"github.com/moby/go-archive/compression"
 )
 
@@ -19,7 +20,7 @@ func czFileOffsetProbe(res *Result, seed uint64) {
 		return
 	}
 	defer os.RemoveAll(dir)
-	for _, f := range []string{"gzip-lib", "xz", "bzip2", "zstd-lib"} {
+	for _, f := range []string{"gzip-lib", "xz", "bzip2", "zstd"} {
 		for _, pigz := range []bool{true, false} {
 			if f != "gzip-lib" && !pigz {
 				continue
@@ -72,4 +73,45 @@ func czFileOffsetProbe(res *Result, seed uint64) {
 		}
 	}
 	os.Unsetenv("MOBY_DISABLE_PIGZ")
+	czZstdWindowProbe(res, seed)
+}
+
+// Legal zstd streams whose frames declare a large window (zstd --long, --ultra, an encoder configured that way):
+// they decompress to what was compressed like any other.
+func czZstdWindowProbe(res *Result, seed uint64) {
+	r := &Rng{s: seed ^ 0x77696e64}
+	payload := czPayload("rand", 200000+r.intn(100000), r.next(), false)
+	for _, win := range []int{1 << 20, 16 << 20, 32 << 20} {
+		var buf bytes.Buffer
+		w, err := zstd.NewWriter(&buf, zstd.WithWindowSize(win), zstd.WithEncoderConcurrency(1))
+		if err != nil {
+			continue
+		}
+		// streamed: the frame header carries the window, not the content size
+		for off := 0; off < len(payload); off += 65536 {
+			end := off + 65536
+			if end > len(payload) {
+				end = len(payload)
+			}
+			_, _ = w.Write(payload[off:end])
+		}
+		if w.Close() != nil {
+			continue
+		}
+		caseText := fmt.Sprintf("fileoff zstd-window=%d seed=%d", win, seed)
+		res.Evaluations++
+		res.Compared++
+		res.count("zstd-window")
+		rc, err := compression.DecompressStream(bytes.NewReader(buf.Bytes()))
+		if err != nil {
+			res.problem(Problem{Kind: "oracle", Stream: "compress", Case: caseText, Msg: fmt.Sprintf("C16: DecompressStream of a zstd stream with a %d MiB window failed: %v", win>>20, err)})
+			continue
+		}
+		got, err := io.ReadAll(rc)
+		rc.Close()
+		if err != nil || !bytes.Equal(got, payload) {
+			res.problem(Problem{Kind: "oracle", Stream: "compress", Case: caseText,
+				Msg: fmt.Sprintf("C16: a zstd stream whose frame declares a %d MiB window: got %d of %d bytes, then %v", win>>20, len(got), len(payload), err)})
+		}
+	}
 }
